@@ -384,3 +384,10 @@ _add("C17", "takagi: whatever passes the validation is symmetric within the abso
 _add("C19", "Stand-in: sample post-processing (postselect, modes_from_counts, to_subgraphs on graphs with default, string, squared and "
             "permuted integer labels) enumerated for every sample in {0,1,2}^n, n <= 4.")
 _add("C15", "Stand-in: every whole-register dimensionless query (purity, fidelity_vacuum, fidelity_coherent, trace) in the hbar sweep.")
+_add("C04", "Command.get_dependencies (the real method; shape-bounded over every parameter-dependency subset and ordered target list of 3 wires, "
+     "overlapping or not) returns exactly measurement_deps UNION targets - the contract the abstract commands assume; the stand-in alphabet "
+     "includes feed-forward onto the measured mode itself.")
+_add("C10", "BaseEngine._run on abstract segments: a successor that still holds outcomes from an earlier run of its own (repeated feed-forward "
+     "segment) receives the predecessor's more recent outcome of every mode (shape-bounded).")
+_add("C09", "Hand-over also replaces values the successor still holds from an earlier run of its own.")
+
